@@ -392,6 +392,8 @@ func RunReplays(t *testing.T, hs map[string]func()) {
 func BlobPut(v interface{}) []byte              { panic("vsym.BlobPut is symbolic-only") }
 func BlobGet(data []byte, dst interface{}) bool { panic("vsym.BlobGet is symbolic-only") }
 
+func ByteSlicesOf(ptr interface{}) [][]byte { panic("vsym.ByteSlicesOf is symbolic-only") }
+
 func LenOf(slice interface{}) int { return reflect.ValueOf(slice).Len() }
 func SwapElems(slice interface{}, i, j int) {
 	reflect.Swapper(slice)(i, j)
